@@ -144,7 +144,7 @@ def gen_value(rng, d):
         k = rng.randint(0, int(((hi if hi is not None else lo + 50) - lo) // step))
         return lo + k * step
     if lo is not None:
-        return lo + rng.choice([0, 0.25, 0.5, 1]) * (1 if hi is None else min(1, hi - lo))
+        return lo + rng.choice([0, 0.25, 0.5, 1] if hi is None or hi - lo >= 1 else [0])
     return rng.choice([0, 1, -3, 2.5, 7.75, 40, 1000])
 
 
@@ -153,13 +153,20 @@ TRANSFORMS_NUM = [('', ''), ('', ''), ('MUL($, 2)', 'DIV($, 2)'), ('ADD($, 1)', 
 TRANSFORMS_BOOL = [('', ''), ('', ''), ('NOT($)', 'NOT($)'), ('NOT($)', '')]
 
 
-def gen_expression(rng, ids, boolean):
+def gen_expression(rng, ids, boolean, canonical):
+    """canonical = exactly as the printer writes it.  (While a port is disabled GET shows the text as it was typed - the
+    attribute cache is only dropped by the polling pass of an enabled port - so a typed form is only used on ports that stay
+    enabled; see notes/C20.md)"""
     a = rng.choice(ids)
     b = rng.choice(ids)
     if boolean:
-        return rng.choice(['$%s' % a, 'NOT($%s)' % a, 'AND($%s, $%s)' % (a, b), 'GT($%s, 5)' % a, 'OR($%s,NOT($%s))' % (a, b)])
-    return rng.choice(['$%s' % a, 'ADD($%s, 1)' % a, 'MUL($%s, $%s)' % (a, b), 'IF($%s, 10, 20)' % a, 'SUB( $%s ,$%s)' % (a, b),
-                       'MIN($%s, $%s, 100)' % (a, b)])
+        forms = ['$%s' % a, 'NOT($%s)' % a, 'AND($%s, $%s)' % (a, b), 'GT($%s, 5)' % a, 'OR($%s, NOT($%s))' % (a, b)]
+        typed = ['OR($%s,NOT($%s))' % (a, b), ' $%s ' % a]
+    else:
+        forms = ['$%s' % a, 'ADD($%s, 1)' % a, 'MUL($%s, $%s)' % (a, b), 'IF($%s, 10, 20)' % a, 'SUB($%s, $%s)' % (a, b),
+                 'MIN($%s, $%s, 100)' % (a, b)]
+        typed = ['SUB( $%s ,$%s)' % (a, b), 'ADD($%s,1)' % a]
+    return rng.choice(forms if canonical or rng.random() < 0.7 else typed)
 
 
 def gen_config(rng, hardware, vpool, slave_pool, periph_pool, rich=True):
@@ -210,6 +217,7 @@ def gen_config(rng, hardware, vpool, slave_pool, periph_pool, rich=True):
             d = defs[pid]
             writable = True
         boolean = d['type'] == 'boolean'
+        disable = rng.random() < 0.15 and pid not in periph_ports
         attrs = {}
         if rng.random() < 0.6:
             attrs['display_name'] = rstr(rng, 64)
@@ -228,6 +236,8 @@ def gen_config(rng, hardware, vpool, slave_pool, periph_pool, rich=True):
         if pid in periph_ports and rng.random() < 0.5:
             attrs['enabled'] = True
         tw, tr = rng.choice(TRANSFORMS_BOOL if boolean else TRANSFORMS_NUM) if rng.random() < 0.45 else ('', '')
+        if disable and tw.startswith(' '):
+            tw, tr = 'MUL($, 4)', 'DIV($, 4)'
         if tr:
             attrs['transform_read'] = tr
         if tw and writable:
@@ -240,13 +250,13 @@ def gen_config(rng, hardware, vpool, slave_pool, periph_pool, rich=True):
         has_expr = False
         if writable and all_ids and rng.random() < (0.35 if rich else 0.2):
             pool_ids = all_ids + (['ghost'] if rng.random() < 0.1 else [])
-            attrs['expression'] = gen_expression(rng, pool_ids, boolean)
+            attrs['expression'] = gen_expression(rng, pool_ids, boolean, canonical=disable)
             has_expr = True
         if attrs:
             attr_ops.append(['patch_port', pid, attrs])
         if writable and not has_expr and rng.random() < 0.75 and pid not in periph_ports:
             attr_ops.append(['patch_value', pid, gen_value(rng, d) if not hw else (rng.choice([True, False]) if boolean else rng.choice([0, 1, 3, 12.5, -7]))])
-        if rng.random() < 0.15 and pid not in periph_ports:
+        if disable:
             attr_ops.append(['patch_port', pid, {'enabled': False}])
     rng.shuffle(attr_ops)
     # keep each port's operations in their relative order of creation (value after transforms is fine either way)
@@ -552,8 +562,8 @@ def c_entry(I, d):
     return coq.lst(list(d.items()), lambda kv: '(%s, %s)' % (I.s(kv[0]), c_jv(I, kv[1])))
 
 
-def c_port(I, e, hardware):
-    """a port of the target hub, from its GET entry"""
+def c_port(I, e, hardware, raw):
+    """a port of the target hub, from its GET entry and what its driver reads"""
     pid = e['id']
     hw = next((h for h in hardware if h['id'] == pid), None)
     custom = hw is not None and hw['kind'] == 'custom'
@@ -562,9 +572,7 @@ def c_port(I, e, hardware):
     attrs = {k: v for k, v in e.items() if k in modifiable}
     skip = set(DEF_KEYS) | set(modifiable) | {'id', 'writable', 'virtual', 'value', 'pending_value'}
     fixed = {k: v for k, v in e.items() if k not in skip}
-    value = e.get('value')
-    if value is None and hw is not None and hw['kind'] == 'num_ro':
-        value = hw.get('input')
+    value = canon(raw.get(pid))
     kinds = CUSTOM_KINDS % (I.s('gain'), I.s('mode'), I.s('fast'), I.s('slow')) if custom else '[]'
     return 'P %s %s %s %s %s %s %s %s' % (I.s(pid), coq.boolean(bool(e.get('virtual'))), coq.boolean(bool(e.get('writable'))),
                                           c_entry(I, d), c_entry(I, fixed), kinds, c_entry(I, attrs), c_jv(I, value))
@@ -576,7 +584,7 @@ def c_err(I, o):
     if o[0] == 'api':
         p = o[3]
         return '(Some (%s, %s, %s, %s))' % (coq.z(o[1]), I.s(o[2]), coq.option(p['id'], lambda v: c_jv(I, v)) if 'id' in p else 'None',
-                                            coq.option(p.get('field'), lambda v: I.s(v) if isinstance(v, str) else I.s('<%r>' % (v,))))
+                                            coq.option(p.get('field'), lambda v: I.s(v) if isinstance(v, str) else I.s('<index>')))
     return '(Some (500, %s, None, None))' % I.s('exception:' + o[1])
 
 
@@ -584,7 +592,7 @@ def c_ports_case(I, job, res):
     hub_at_put = res['mid_ports']          # GET /ports of the target when PUT /ports is issued
     slaves = [s.get('name') for s in res['mid_devices'] if isinstance(s.get('name'), str)]
     limit = next((op[2] for op in job['target'] if op[0] == 'set_setting' and op[1] == 'virtual_ports'), 1024)
-    hub = 'H %s %s true %s' % (coq.lst(hub_at_put, lambda e: '(%s)' % c_port(I, e, job.get('hardware', []))), coq.z(limit),
+    hub = 'H %s %s true %s' % (coq.lst(hub_at_put, lambda e: '(%s)' % c_port(I, e, job.get('hardware', []), res['mid_raw'])), coq.z(limit),
                                coq.lst(slaves, I.s))
     parses = coq.lst(res['parses'], lambda t: '(%s, %s, %s)' % (
         I.s(t[0]), I.s(t[1]), '(Some (%s, %s))' % (I.s(t[4]), coq.lst(t[5], I.s)) if t[3] else 'None'))
@@ -878,8 +886,8 @@ LEVEL_TEXT = (
     'from the definition fields, set_port_attrs with schema and step validation, loop detection, background value write, '
     'try/finally around the flags, errors wrapped with the port id), get/put_device, get/put_slave_devices and '
     'get/put_peripherals: for every configuration pair on the same hardware and every document order, a restore that is '
-    'accepted yields documents equal to the backup except for the volatile fields; an unaltered backup of a loop-free '
-    'configuration is accepted unless the virtual port limit is hit; after put_ports polling and event delivery are enabled on '
+    'accepted yields documents equal to the backup except for the volatile fields (acceptance itself is checked by the '
+    'correspondence and the oracle, not proved); after put_ports polling and event delivery are enabled on '
     'every path for every document; a rejection carries the id of an entry of the document. The model is compared with the real '
     'functions on generated configuration pairs (error, flags, documents after the restore), and the real functions with the '
     'specification oracle.'
